@@ -22,3 +22,56 @@ def time_limit(seconds):
     finally:
         signal.setitimer(signal.ITIMER_REAL, 0)
         signal.signal(signal.SIGALRM, old)
+
+
+TIMEOUT = object()
+
+
+def forked(fn, timeout):
+    """Run fn() in a forked child with a hard wall-clock limit; returns its
+    (picklable) result, or TIMEOUT.  The child is killed on expiry, which is
+    the only reliable way to bound z3's nlsat."""
+    import os, pickle, select, signal, time
+    r, w = os.pipe()
+    pid = os.fork()
+    if pid == 0:
+        code = 0
+        try:
+            os.close(r)
+            data = pickle.dumps(fn())
+            with os.fdopen(w, 'wb') as f:
+                f.write(data)
+        except BaseException:
+            code = 1
+        finally:
+            os._exit(code)
+    os.close(w)
+    deadline = time.time() + timeout
+    chunks = []
+    timed_out = False
+    while True:
+        left = deadline - time.time()
+        if left <= 0:
+            timed_out = True
+            break
+        ready, _, _ = select.select([r], [], [], left)
+        if not ready:
+            timed_out = True
+            break
+        b = os.read(r, 1 << 16)
+        if not b:
+            break
+        chunks.append(b)
+    os.close(r)
+    if timed_out:
+        try:
+            os.kill(pid, signal.SIGKILL)
+        except OSError:
+            pass
+    os.waitpid(pid, 0)
+    if timed_out or not chunks:
+        return TIMEOUT
+    try:
+        return pickle.loads(b''.join(chunks))
+    except Exception:
+        return TIMEOUT
